@@ -175,9 +175,11 @@ class FaultHandlerOverrideTlv(AbstractTlvBase):
 
     @classmethod
     def unpack(cls, data: bytes) -> FaultHandlerOverrideTlv:
+        tlv = CfdpTlv.unpack(data=data)
+        if tlv.tlv_type != cls.TLV_TYPE:
+            raise TlvTypeMissmatch(tlv.tlv_type, cls.TLV_TYPE)
         fault_handler_ovr_tlv = cls.__empty()
-        fault_handler_ovr_tlv.tlv = CfdpTlv.unpack(data=data)
-        fault_handler_ovr_tlv.check_type(tlv_type=FaultHandlerOverrideTlv.TLV_TYPE)
+        fault_handler_ovr_tlv.tlv = tlv
         fault_handler_ovr_tlv.condition_code = (
             fault_handler_ovr_tlv.tlv.value[0] & 0xF0
         ) >> 4
